@@ -14,13 +14,20 @@ func init() {
 		Decides: "(R05.1) every access of the ballotbox's record map builds its key as the stage point string with the same literal prefix set at writer, reader and remover sites (a remover using another prefix never releases suffrage-confirm records); " +
 			"(R05.2) records are returned to the pool only by the cleanup cycle, only records of the previous cycle's removed list, every record put on the removed list is removed from the map in the same cycle, and the unfinished-record scan skips removed records; " +
 			"(R05.3) every mutating/counting method of a record first tests that the record is not a recycled (zero stage point) one, and every field of a pooled record is re-initialised on the put side or the get side; " +
-			"(R05.4) a record's vote maps are touched only through the method's own receiver, and the public per-point queries look the record up with their own point argument.; (R05.3r) a released vote record is never re-issued for another stage point (nothing is handed back to voterecordsPool; the re-initialisation rules R05.3p apply only if it is)",
+			"(R05.4) a record's vote maps are touched only through the method's own receiver, and the public per-point queries look the record up with their own point argument.; (R05.3r) a released vote record is never re-issued for another stage point (nothing is handed back to voterecordsPool; the re-initialisation rules R05.3p apply only if it is); (R05.2) vote() fetches or creates a record only after isNewBallot accepted the ballot (a late ballot does not re-create the record of a released stage point)",
 		NotDecided: "the tally itself (C01/C04); races between cleanup and concurrent voters beyond the record lock.",
 		Run:        runC05,
 	})
 }
 
 func runC05(c *Ctx) {
+	// a record comes into being only for a stage point the box has not passed: vote() asks isNewBallot
+	// before it fetches-or-creates the record (a late ballot of a released stage point would re-create
+	// an empty record under its key, which is then consulted and released a second time)
+	c.Rule("R05.2", "MustPass")
+	if fn := c.Need("isaac/states.(*Ballotbox).vote"); fn != nil {
+		c.MP(fn, "vote: a record is fetched or created only for a ballot newer than the last point", c.CallsD(fn, "box.newVoterecords(*)"), 1, GTrue("box.isNewBallot(*)"))
+	}
 	// R05.1 key table ------------------------------------------------------------------------
 	c.Rule("R05.1", "KeyTable")
 	sites := c.CallsInFuncs("(*util.ShardedMap[*]).*", "isaac/states.(*Ballotbox).")
